@@ -43,7 +43,9 @@ def install_span_probe():
             lo = self._Lexer__pos
             r = p(self)
             if r:
-                self._nv_spans.append((lo, self._Lexer__pos))
+                sp = getattr(self, "_nv_spans", None)
+                if sp is not None:
+                    sp.append((lo, self._Lexer__pos))
             return r
         w.__name__ = p.__name__
         return w
